@@ -114,7 +114,8 @@ def jacobi_seq(ns, alpha, beta, x):
     # just return array for ergonomics
     ns = list(ns)
     min_i = 0
-    out = np.empty((len(ns), *x.shape), dtype=x.dtype)
+    # integer coordinates have floating point polynomials
+    out = np.empty((len(ns), *x.shape), dtype=np.result_type(x.dtype, np.float32))
     if ns[min_i] == 0:
         out[min_i] = 1
         min_i += 1
@@ -220,7 +221,8 @@ def jacobi_der_seq(ns, alpha, beta, x):
     # and we modify the arguments to
     ns = list(ns)
     min_i = 0
-    out = np.empty((len(ns), *x.shape), dtype=x.dtype)
+    # integer coordinates have floating point polynomials
+    out = np.empty((len(ns), *x.shape), dtype=np.result_type(x.dtype, np.float32))
     if ns[min_i] == 0:
         # n=0 is piston, der==0
         out[min_i] = 0
